@@ -181,8 +181,9 @@ def wire_dense(Xv):
 
 def match_rows(ref, got, ref_b, got_b, subset=False, anysign=False):
     """ref, got: 2-D float arrays (rows x features); *_b: list of (lb, ub) per row.
-    Returns None when the two are equal as multisets (1e-9 relative per entry, plus 1e-10 of the
-    row scale for entries that cancel), else a short description."""
+    Returns None when the two are equal as multisets: 1e-9 relative to the entry's OWN magnitude,
+    plus 1e-12 of the row scale for entries that cancel in binary64 (a coefficient of size 1e-9
+    that differs by 1e-9 is therefore a difference), else a short description."""
     if ref.shape[0] != got.shape[0] and not subset:
         return "row count %d vs %d" % (ref.shape[0], got.shape[0])
     if got.shape[0] == 0 and ref.shape[0]:
@@ -193,7 +194,7 @@ def match_rows(ref, got, ref_b, got_b, subset=False, anysign=False):
     for r in range(ref.shape[0]):
         a = ref[r]
         rowmax = max(1.0, float(np.max(np.abs(a))) if a.size else 1.0)
-        tol = 1e-9 * np.maximum(np.abs(a)[None, :], np.abs(got)) + 1e-10 * rowmax
+        tol = 1e-9 * np.maximum(np.abs(a)[None, :], np.abs(got)) + 1e-12 * rowmax
         ok = np.all(np.abs(got - a[None, :]) <= tol, axis=1) & ~used
         if anysign:  # an equality row and its negative are the same equation
             ok = ok | (np.all(np.abs(got + a[None, :]) <= tol, axis=1) & ~used)
@@ -671,6 +672,63 @@ CORPUS = [
 ]
 
 
+FORCED_PARAMS = [
+    [1e-9, 3e-9, 5e-10], [2.0, 2.00001], [1.0, 2.0], [0.0, 5.0], [2.0, 2.0, 2.0 + 1e-8], [0.5, 0.5, 0.5000005, 0.5],
+    [1e-9, 1e-9, 3e-9], [0.0, 1e-9], [1.0, 1.0 + 2 ** -40],
+]
+
+
+def stream_effpar(c, rng, count):
+    """which parameter value does the residual of member m see?  Observed EXACTLY on the real code:
+    a one-variable problem whose residual is the parameter vector itself (theta = 1), so every row
+    of g is a constant equal to the value member m's residual was given; compared as exact
+    multisets with the model's `effPar` and with the member's own values (the property)."""
+    cases, lines = [], []
+    for k in range(count):
+        if k < len(FORCED_PARAMS):
+            cols = [list(FORCED_PARAMS[k])]
+            E = len(cols[0])
+            for _ in range(rng.randint(0, 2)):
+                cols.append(S.gen_param_values(rng, E)[0])
+        else:
+            E = rng.randint(2, 4)
+            cols = [S.gen_param_values(rng, E)[0] for _ in range(rng.randint(1, 4))]
+        npar = len(cols)
+        t0 = rng.choice(S.T0S)
+        ts = [t0 + i * 0.5 for i in range(rng.randint(2, 3))]
+        inst = dict(kind="effpar", ns=0, na=1, nc=0, nci=0, npar=npar, E=E, ts=ts, theta=1.0, nom={"a0": 1.0},
+                    pvals=[list(r) for r in zip(*cols)], cin=[[] for _ in range(E)], modes={},
+                    eqs=[{"c": 0.0, "t": [[1.0, [["p", j]]]]} for j in range(npar)], init_eqs=None,
+                    history=[{} for _ in range(E)], own_times={}, bounds={},
+                    dyn=sorted(j for j in range(npar) if rng.random() < 0.2))
+        cases.append(inst)
+        lines.append(dict(op="effpar", E=E, npar=npar, pvals=[[fr(x) for x in row] for row in inst["pvals"]],
+                          dyn=[(j in inst["dyn"]) for j in range(npar)]))
+    outs = c.model(lines)
+    for k, inst in enumerate(cases):
+        c.count(("effpar", inst["E"], inst["npar"], tuple(tuple(r) for r in inst["pvals"])))
+        c.hit("effpar stream (exact)")
+        try:
+            cs = run_code(inst)
+            b = g_at(cs, np.zeros(cs.N))
+            b2 = g_at(cs, np.ones(cs.N))
+        except Exception as e:
+            c.fail("transcribe() raised %s on a valid synthetic instance" % type(e).__name__, inst, repr(e)[:300])
+            continue
+        n = len(inst["ts"])
+        got = sorted(Fraction(float(x)) for x in b)
+        own = sorted([Fraction(float(v)) for row in inst["pvals"] for v in row] * n + [Fraction(0)] * inst["E"])
+        if list(b) != list(b2) or got != own:
+            c.fail("a member's residual was given another value than that member's own parameter value "
+                   "(rows of the parameter-only residual, exact)", inst,
+                   {"rows": [float(x) for x in b], "own": [float(x) for x in own]})
+        if outs is not None:
+            eff = outs[k]["eff"] if isinstance(outs[k], dict) else None
+            model = None if eff is None else sorted([Fraction(x) for row in eff for x in row] * n + [Fraction(0)] * inst["E"])
+            if model != got:
+                c.disagree("effective parameter values (exact multiset)", inst, eff, [float(x) for x in b])
+
+
 def run_batch(c, insts, rng, solve=False):
     prepared = []
     for inst in insts:
@@ -762,6 +820,7 @@ def run(c):
     for k in range(0, len(allinst), 40):
         run_batch(c, allinst[k:k + 40], rng)
     run_batch(c, sol, rng, solve=True)
+    stream_effpar(c, rng, c.n(30, 300))
     c.exhaustive = False
     c.notes.append("affine instances: complete comparison of (A, b, lbg, ubg); nonlinear ones at N+5 probes; "
                    "the unbounded claim is carried by the theorems")
